@@ -2,17 +2,39 @@
 import checker_cluster as K
 import elab_cluster as E
 import gen_checker as G
+import gen_run
+import run_cluster as R
 
 PROP = "C14"
-CONE = sorted(set(K.MODEL_FILES + E.MODEL_FILES + ["Gen/Generated.v"] + ['Proofs/CheckerFrame.v', 'Proofs/CheckerProps.v', 'Props/C14.v']))
+CONE = sorted(set(K.MODEL_FILES + E.MODEL_FILES + R.MODEL_FILES + ["Gen/Generated.v"] + ['Proofs/CheckerFrame.v', 'Proofs/CheckerProps.v', 'Props/C14.v']))
 RULE_E = 'histories of 2-6 definitions: module-level functions with stacks of 0-4 decorators (require / ensure / snapshot, enabled or not, foreign functools.wraps decorators, invalid decorators), classes on DBC or not with single or multiple bases, members f/g/p/__init__/__new__/__setattr__/_priv/__repr__ of kinds method, static, class method, property get/set/del, class invariants with check_on CALL/SETATTR/ALL; after each step every earlier function and class is viewed through find_checker and the list attributes (contents and identity of the invariant lists); seeded. distinct = distinct final views.'
 RULE_C = 'checker-cluster cases as for C01 (all callable kinds x sync/async, chains of 1-3 classes, faults); seeded.'
 
 
+RULE_R = ('programs of contracted functions and classes with invariants whose conditions, captures, bodies and methods call each '
+          'other (the generator of C11, half of them coroutine functions and async methods driven by hand, user exceptions '
+          'and cancellation injected): whenever the stack rule reports no violation, the bodies entered and the outcome are '
+          'those of the bare program (spec_C14_run).')
+
+
+def gen_run_cases(rng, n):
+    cases = []
+    for i in range(n):
+        g = gen_run.GenRun(rng, is_async=(i % 2 == 1), faults=0.1, awaits=0.4)
+        c = g.case()
+        if gen_run.small_enough(c):
+            cases.append(c)
+    return cases
+
+
 def run(tier, replay=None):
     out, build, problems = K.begin(PROP, tier, CONE, "Props/C14.v")
-    is_elab_replay = bool(replay) and "ops" in __import__("json").load(open(replay)).get("case", {})
-    if not replay or not is_elab_replay:
+    rp = __import__("json").load(open(replay)).get("case", {}) if replay else {}
+    is_run_replay = "prog" in rp
+    is_elab_replay = bool(replay) and "ops" in rp and not is_run_replay
+    if not replay or is_run_replay:
+        R.run_into(out, build, problems, PROP, tier, "spec_C14_run", gen_run_cases, 500, 12000, RULE_R, replay=replay)
+    if not replay or not (is_elab_replay or is_run_replay):
         K.run_into(out, build, problems, PROP, tier, ['spec_C14'], lambda rng, n: G.gen_many(rng, n), 1200, 25000, RULE_C,
                    replay=replay)
     if not replay or is_elab_replay:
